@@ -17,7 +17,7 @@ import (
 
 // ---- generators -----------------------------------------------------------
 
-var hcMethods = []string{"GET", "POST", "PUT", "DELETE", "PATCH", "OPTIONS", "PURGE"}
+var hcMethods = []string{"GET", "POST", "PUT", "DELETE", "PATCH", "OPTIONS", "PURGE", "HEAD"}
 
 func hcGenExchange(rng *sim.Rand, prop string, sc *hcScenario) hcExchange {
 	ex := hcExchange{}
@@ -148,7 +148,7 @@ func hcGenC03(rng *sim.Rand, tier string) interface{} {
 					ex.BodyLen = 0
 				}
 			}
-			if rng.Bool(0.1) && ex.RBodyLen > 100 && sc.Retry <= 1 {
+			if rng.Bool(0.1) && ex.RBodyLen > 100 && sc.Retry <= 1 && ex.Method != "HEAD" {
 				// backend dies in the middle of the body (buffered and stream mode)
 				ex.RReset = true
 				ex.RChunked = false
@@ -176,9 +176,18 @@ func hcGenC07(rng *sim.Rand, tier string) interface{} {
 		sc.SrvMax, sc.PathMax, sc.PoolMax, sc.ProxyMax = 0, 0, 0, 0
 		sc.Seg = [4]int{}
 	}
-	reqLim := hcEffective(sc.PathMax, sc.SrvMax)
-	respLim := hcEffective(sc.PoolMax, sc.ProxyMax)
-	if reqLim < 0 && rng.Bool(0.4) {
+	if !big {
+		sc.CacheSize = rng.Pick(0, 0, 1, 2, 50)
+		sc.SplitPaths = rng.Bool(0.5)
+	}
+	reqLimOf := func(l hcLimits, path string) int64 {
+		if sc.SplitPaths && path != "/up" {
+			return hcEffective(0, l.srv)
+		}
+		return hcEffective(l.path, l.srv)
+	}
+	first := hcLimits{sc.SrvMax, sc.PathMax, sc.PoolMax, sc.ProxyMax}
+	if hcEffective(sc.PathMax, sc.SrvMax) < 0 && hcEffective(0, sc.SrvMax) < 0 && rng.Bool(0.4) {
 		sc.Retry = 2 // a streamed body must pass intact, i.e. never be re-sent by a retry
 	}
 	around := func(lim int64) int {
@@ -194,36 +203,72 @@ func hcGenC07(rng *sim.Rand, tier string) interface{} {
 		}
 		return v
 	}
-	nc := rng.Range(1, 2)
-	for c := 0; c < nc; c++ {
-		var cl hcClient
-		for e, n := 0, rng.Range(1, 4); e < n; e++ {
-			ex := hcExchange{Method: rng.PickStr("POST", "PUT", "POST", "GET"), Path: rng.PickStr("/up", "/a/b"), Status: rng.Pick(200, 200, 201, 404, 500)}
-			ex.BodyLen = around(reqLim)
-			ex.Chunked = rng.Bool(0.5)
-			ex.ChunkSz = rng.Pick(1, 7, 100, 4096, 0)
-			if ex.BodyLen > 100000 {
-				ex.ChunkSz = rng.Pick(4096, 65536, 0)
-			}
-			ex.Inc = rng.Bool(0.3)
-			ex.RBodyLen = around(respLim)
-			ex.RChunked = rng.Bool(0.4)
-			ex.RInc = rng.Bool(0.3)
-			ex.NewConn = rng.Bool(0.2)
-			ex.AcceptEnc = rng.PickStr("", "identity")
-			if sc.Retry > 1 && rng.Bool(0.5) {
-				ex.FailFirst = 1
-			}
-			if rng.Bool(0.12) && ex.RBodyLen > 2 {
-				ex.RShort = rng.Pick(1, 2, ex.RBodyLen/2, ex.RBodyLen)
-				if ex.RShort > ex.RBodyLen {
-					ex.RShort = ex.RBodyLen
+	// sizes of a later round also sit around the limits of the generation before:
+	// a limit that survives a hot update shows there
+	genClients := func(l hcLimits, prev *hcLimits, paths []string) []hcClient {
+		var out []hcClient
+		nc := rng.Range(1, 2)
+		for c := 0; c < nc; c++ {
+			var cl hcClient
+			for e, n := 0, rng.Range(1, 4); e < n; e++ {
+				ex := hcExchange{Method: rng.PickStr("POST", "PUT", "POST", "GET"), Path: paths[rng.Intn(len(paths))], Status: rng.Pick(200, 200, 201, 404, 500)}
+				ex.BodyLen = around(reqLimOf(l, ex.Path))
+				ex.RBodyLen = around(hcEffective(l.pool, l.proxy))
+				if prev != nil && rng.Bool(0.5) {
+					ex.BodyLen = around(reqLimOf(*prev, ex.Path))
 				}
-				ex.RChunked = false
+				if prev != nil && rng.Bool(0.5) {
+					ex.RBodyLen = around(hcEffective(prev.pool, prev.proxy))
+				}
+				ex.Chunked = rng.Bool(0.5)
+				ex.ChunkSz = rng.Pick(1, 7, 100, 4096, 0)
+				if ex.BodyLen > 100000 {
+					ex.ChunkSz = rng.Pick(4096, 65536, 0)
+				}
+				ex.Inc = rng.Bool(0.3)
+				ex.RChunked = rng.Bool(0.4)
+				ex.RInc = rng.Bool(0.3)
+				ex.NewConn = rng.Bool(0.2)
+				ex.AcceptEnc = rng.PickStr("", "identity")
+				if sc.Retry > 1 && rng.Bool(0.5) {
+					ex.FailFirst = 1
+				}
+				if rng.Bool(0.12) && ex.RBodyLen > 2 {
+					ex.RShort = rng.Pick(1, 2, ex.RBodyLen/2, ex.RBodyLen)
+					if ex.RShort > ex.RBodyLen {
+						ex.RShort = ex.RBodyLen
+					}
+					ex.RChunked = false
+				}
+				cl.Ex = append(cl.Ex, ex)
 			}
-			cl.Ex = append(cl.Ex, ex)
+			out = append(out, cl)
 		}
-		sc.Clients = append(sc.Clients, cl)
+		return out
+	}
+	paths := []string{"/up", "/a/b"}
+	sc.Clients = genClients(first, nil, paths)
+	if !big && sc.Retry <= 1 && rng.Bool(0.35) {
+		// hot update of the limits between two rounds; the second round revisits the
+		// paths of the first (a warm route cache must not keep the old limits)
+		rl := &hcReload{SrvMax: sc.SrvMax, PathMax: sc.PathMax, PoolMax: sc.PoolMax, ProxyMax: sc.ProxyMax}
+		for changed := false; !changed; {
+			if rng.Bool(0.5) {
+				rl.SrvMax, changed = lim(), true
+			}
+			if rng.Bool(0.5) {
+				rl.PathMax, changed = lim(), true
+			}
+			if rng.Bool(0.4) {
+				rl.PoolMax, changed = lim(), true
+			}
+			if rng.Bool(0.4) {
+				rl.ProxyMax, changed = lim(), true
+			}
+		}
+		second := hcLimits{rl.SrvMax, rl.PathMax, rl.PoolMax, rl.ProxyMax}
+		rl.Clients = genClients(second, &first, paths)
+		sc.Reload = rl
 	}
 	hcTameNet(sc)
 	return sc
@@ -236,6 +281,9 @@ func hcExec(r *sim.Run, sci interface{}) {
 	if len(sc.Clients) == 0 {
 		return
 	}
+	if !hcValid(sc) {
+		return // a shrunk scenario outside the generator's range (e.g. an empty header name): not a counterexample
+	}
 	r.MultiClass = true
 	c, err := hcNewChain(r, sc)
 	if err != nil {
@@ -244,43 +292,96 @@ func hcExec(r *sim.Run, sci interface{}) {
 		return
 	}
 	defer c.close()
-	for ci := range sc.Clients {
-		for ei := range sc.Clients[ci].Ex {
-			c.script[fmt.Sprintf("c%de%d", ci, ei)] = &sc.Clients[ci].Ex[ei]
+	round := func(prefix string, clients []hcClient) {
+		for ci := range clients {
+			for ei := range clients[ci].Ex {
+				c.script[fmt.Sprintf("%s%de%d", prefix, ci, ei)] = &clients[ci].Ex[ei]
+			}
 		}
-	}
-	for ci := range sc.Clients {
-		ci := ci
-		r.Go(fmt.Sprintf("client%d", ci), func() {
-			var conn *hcConn
-			for ei := range sc.Clients[ci].Ex {
-				if r.Aborted() {
-					break
+		for ci := range clients {
+			ci := ci
+			r.Go(fmt.Sprintf("client%s%d", prefix, ci), func() {
+				var conn *hcConn
+				for ei := range clients[ci].Ex {
+					if r.Aborted() {
+						break
+					}
+					ex := &clients[ci].Ex[ei]
+					id := fmt.Sprintf("%s%de%d", prefix, ci, ei)
+					r.Sleep(time.Duration(ex.GapUs) * time.Microsecond)
+					res := c.hcDo(&conn, ci, id, ex)
+					r.Eventf("client %s: status=%d framing=%s complete=%v body=%d ioerr=%v frameerr=%q", id, res.status, res.framing, res.complete, len(res.body), res.ioErr, res.frameErr)
+					if sc.Prop == "C03" {
+						c.checkC03(id, ex, res)
+					} else {
+						c.checkC07(id, ex, res)
+					}
 				}
-				ex := &sc.Clients[ci].Ex[ei]
-				id := fmt.Sprintf("c%de%d", ci, ei)
-				r.Sleep(time.Duration(ex.GapUs) * time.Microsecond)
-				res := c.hcDo(&conn, ci, id, ex)
-				r.Eventf("client %s: status=%d framing=%s complete=%v body=%d ioerr=%v frameerr=%q", id, res.status, res.framing, res.complete, len(res.body), res.ioErr, res.frameErr)
-				if sc.Prop == "C03" {
-					c.checkC03(id, ex, res)
-				} else {
-					c.checkC07(id, ex, res)
+				if conn != nil {
+					conn.c.Close()
 				}
-			}
-			if conn != nil {
-				conn.c.Close()
-			}
-		})
+			})
+		}
+		r.WaitTasks()
 	}
-	r.WaitTasks()
+	round("c", sc.Clients)
+	if sc.Reload != nil && !r.Aborted() {
+		// quiescent point: every client of the first round has its answer
+		r.Fault("hot_update_between_rounds")
+		if err := c.hotUpdate(hcLimits{sc.Reload.SrvMax, sc.Reload.PathMax, sc.Reload.PoolMax, sc.Reload.ProxyMax}); err != nil {
+			r.Violate(sc.Prop+".setup", "hot update: %v", err)
+			return
+		}
+		round("d", sc.Reload.Clients)
+	}
 	n := 0
 	for _, cl := range sc.Clients {
 		n += len(cl.Ex)
 	}
+	if sc.Reload != nil {
+		for _, cl := range sc.Reload.Clients {
+			n += len(cl.Ex)
+		}
+	}
 	if n >= 2 {
 		r.Nontrivial()
 	}
+}
+
+// hcValid keeps the minimiser inside the space the generators draw from.
+func hcValid(sc *hcScenario) bool {
+	rounds := [][]hcClient{sc.Clients}
+	if sc.Reload != nil {
+		rounds = append(rounds, sc.Reload.Clients)
+	}
+	for _, cls := range rounds {
+		for _, cl := range cls {
+			for _, ex := range cl.Ex {
+				if ex.Method == "" || !strings.HasPrefix(ex.Path, "/") || ex.Status < 200 || ex.Status > 599 {
+					return false
+				}
+				for _, kv := range ex.Hdr {
+					if kv[0] == "" {
+						return false
+					}
+				}
+				for _, kv := range ex.RHdr {
+					if kv[0] == "" {
+						return false
+					}
+				}
+				for _, t := range ex.ConnTokens {
+					if t == "" {
+						return false
+					}
+				}
+				if ex.Method == "HEAD" && (ex.RReset || ex.RShort > 0) {
+					return false
+				}
+			}
+		}
+	}
+	return true
 }
 
 func hcDecode(body []byte, hdr http.Header) ([]byte, error) {
@@ -303,8 +404,8 @@ func hcShort(b []byte) string {
 
 func (c *hcChain) describe(ex *hcExchange) string {
 	sc := c.sc
-	return fmt.Sprintf("[cfg retry=%d failFirst=%d server=%s memCache=%v byHost=%v keepHost=%v compress=%d respAdaptor=%q reqAdaptor=%q srvMax=%d pathMax=%d poolMax=%d proxyMax=%d] [req %s %s?%s body=%d chunked=%v ae=%q conn=%v hdr=%v] [backend status=%d body=%d chunked=%v gzip=%v short=%d reset=%v hdr=%v]",
-		sc.Retry, ex.FailFirst, c.backAddr, sc.MemCache, sc.ByHost, sc.KeepHost, sc.Compress, sc.RespAdaptor, sc.ReqAdaptor, sc.SrvMax, sc.PathMax, sc.PoolMax, sc.ProxyMax,
+	return fmt.Sprintf("[cfg retry=%d failFirst=%d server=%s memCache=%v byHost=%v keepHost=%v compress=%d respAdaptor=%q reqAdaptor=%q generation=%d cacheSize=%d splitPaths=%v srvMax=%d pathMax=%d poolMax=%d proxyMax=%d] [req %s %s?%s body=%d chunked=%v ae=%q conn=%v hdr=%v] [backend status=%d body=%d chunked=%v gzip=%v short=%d reset=%v hdr=%v]",
+		sc.Retry, ex.FailFirst, c.backAddr, sc.MemCache, sc.ByHost, sc.KeepHost, sc.Compress, sc.RespAdaptor, sc.ReqAdaptor, c.gen, sc.CacheSize, sc.SplitPaths, c.lim.srv, c.lim.path, c.lim.pool, c.lim.proxy,
 		ex.Method, ex.Path, ex.Query, ex.BodyLen, ex.Chunked, ex.AcceptEnc, ex.ConnTokens, ex.Hdr,
 		ex.Status, ex.RBodyLen, ex.RChunked, ex.RGzip, ex.RShort, ex.RReset, ex.RHdr)
 }
@@ -337,7 +438,7 @@ func (c *hcChain) checkC03(id string, ex *hcExchange, res *hcResp) {
 		r.Violate("C03.frame.malformed/"+c.facts(ex), "%s: response is not well-formed HTTP/1.1: %s (status %d)\n%s", id, res.frameErr, res.status, desc)
 		return
 	}
-	if faulty && c.sc.ProxyMax != -1 && c.sc.PoolMax != -1 && (res.ioErr != nil || !res.complete) && res.status != 0 {
+	if faulty && c.lim.proxy != -1 && c.lim.pool != -1 && (res.ioErr != nil || !res.complete) && res.status != 0 {
 		// buffered mode: the proxy holds the whole backend body before it answers,
 		// so whatever it answers must be well-framed
 		r.Violate("C03.frame.short-body-after-backend-fault/"+c.facts(ex), "%s: backend died mid-body (buffered mode) and the client was sent status %d with declared Content-Length=%q but %d body bytes (err %v)\n%s",
@@ -412,7 +513,7 @@ func (c *hcChain) checkC03(id string, ex *hcExchange, res *hcResp) {
 		r.Violate("C03.req.not-forwarded/"+c.facts(ex), "%s: backend never saw the request; client got %d\n%s", id, res.status, desc)
 		return
 	}
-	if c.sc.Retry > 1 && ex.FailFirst > 0 && hcEffective(c.sc.PathMax, c.sc.SrvMax) < 0 {
+	if c.sc.Retry > 1 && ex.FailFirst > 0 && c.reqLimit(ex) < 0 {
 		// a streamed request body can be read only once: it must not be retried;
 		// the client gets the failing attempt's answer
 		r.Probe("c03.stream_request_failed_once_not_retried")
@@ -584,13 +685,19 @@ func (c *hcChain) checkC07(id string, ex *hcExchange, res *hcResp) {
 	r := c.r
 	desc := c.describe(ex)
 	seen := c.seen[id]
-	reqLim := hcEffective(c.sc.PathMax, c.sc.SrvMax)
-	respLim := hcEffective(c.sc.PoolMax, c.sc.ProxyMax)
+	reqLim := c.reqLimit(ex)
+	respLim := c.respLimit()
 	if res.frameErr != "" || res.garbage {
 		r.Violate("C07.malformed-response", "%s: %s\n%s", id, res.frameErr, desc)
 		return
 	}
 	plain := hcBody("q"+id, ex.BodyLen, ex.Inc)
+	if c.gen > 0 {
+		r.Probe("c07.exchange_after_hot_update")
+		if c.sc.CacheSize > 0 {
+			r.Probe("c07.exchange_after_hot_update_with_route_cache")
+		}
+	}
 	// ---- request direction
 	if reqLim >= 0 && int64(ex.BodyLen) > reqLim {
 		r.Probe("c07.request_over_limit")
@@ -697,7 +804,7 @@ func TestVerifC03(t *testing.T) {
 			"non-trivial = at least 2 exchanges completed; distinct = distinct schedule traces",
 		Real: hcReal, Stub: hcStub,
 		Assumptions: []string{"hop-by-hop removal is asserted on the request side only (the statement names it there)", "headers the Go transport/server may add are allow-listed: Accept-Encoding, User-Agent, Content-Length, Date, Content-Type sniffing",
-			"HEAD/CONNECT, Expect: 100-continue, trailers and 1xx responses are not generated"},
+			"CONNECT, Expect: 100-continue, trailers and 1xx responses are not generated; a backend that dies mid-body is not combined with HEAD (there is no body to die in)"},
 	})
 }
 
